@@ -219,3 +219,31 @@ fn c04_9a_commands_respect_the_slice() {
     kani::cover!(true);
     core::mem::forget(s); core::mem::forget(h);
 }
+
+// @ob id=C04.8g,C02.6a strength=bounded tier=quick timeout=1800 bound="3 symbolic frames, sample_rate 1, dt 1; volume -60 dB or panning hard left (fixed settings); 2 one-frame callbacks" axioms=EXP10 fn=sound/static_sound/sound.rs::<StaticSound as Sound>::process
+// @req a sound built with volume -60 dB, or with panning -1 (hard left)
+// @ens the sound's own volume and panning are applied to every frame: at -60 dB the output is exact silence while the playback position still advances; panned hard left the right channel is exactly zero and the left channel carries the left source sample (sign kept, not attenuated)
+#[kani::proof]
+#[kani::unwind(8)]
+#[kani::stub(f32::powf, powf32_model)]
+fn c04_8g_volume_and_panning_applied() {
+    let src = any_frames3();
+    let silent: bool = kani::any();
+    let mut st = StaticSoundSettings::new();
+    if silent { st.volume = crate::Value::Fixed(Decibels(-60.0)); } else { st.panning = crate::Value::Fixed(Panning(-1.0)); }
+    let (mut s, h) = build(src, st, None);
+    let info = empty_info();
+    let a = s.process_one(1.0, &info);
+    let b = s.process_one(1.0, &info);
+    if silent {
+        assert!(same(a, Frame::ZERO) && same(b, Frame::ZERO), "C04.8g: a sound at -60 dB is silent");
+        assert!(s.resampler.current_frame_index() == 2, "C04.8g: but keeps playing");
+    } else {
+        assert!(a.right == 0.0 && b.right == 0.0, "C04.8g: hard-left panning silences the right channel");
+        assert!((a.left >= 0.0) == (src[0].left >= 0.0) || a.left == 0.0, "C04.8g: the left channel keeps the source's sign");
+        assert!(a.left.abs() >= src[0].left.abs(), "C04.8g: and is not attenuated");
+    }
+    kani::cover!(silent);
+    kani::cover!(!silent);
+    core::mem::forget(info); core::mem::forget(s); core::mem::forget(h);
+}
